@@ -524,8 +524,9 @@ def load_targets():
                 RULES[rn] = tuple(rv)
                 if dot and rn not in DOTALL: DOTALL.append(rn)
             if isinstance(d.get("normalise"), dict):
-                d["normalise"] = {(tuple(k.split("::", 1)) if "::" in k else ("", k)): v
-                                  for k, v in d["normalise"].items() if not isinstance(k, tuple)}
+                # key (impl or None, fn) — the same reading as the blocks of b1012 (in `add`) and b0103 (`_json_plan`): "::fn" = free function
+                d["normalise"] = {(((k.rpartition("::")[0] or None), k.rpartition("::")[2]) if isinstance(k, str) else k): list(v)
+                                  for k, v in d["normalise"].items()}
             add(d, os.path.basename(path))
     return tgs
 
